@@ -51,6 +51,11 @@ def run_case(case):
 	nq, nr = case['nq'], case['nr']
 	queries = [sig() for _ in range(nq)]
 	refs = [sig() for _ in range(nr)]
+	if case.get('mixed_ref_dtypes') and nr:
+		# a plain / list-backed collection may hold signatures of different integer types; later ones exceed the range of the first
+		refs = [r.astype('u2') if i == 0 else (np.array(sorted(set(int(v) for v in r.tolist()) | {2 ** 16 + int(v) for v in refs[0].tolist()[:3]} | {2 ** 33 + i}), dtype='u8') if i % 2 else r.astype('u4'))
+		        for i, r in enumerate(refs)]
+		refs[0] = np.array(sorted(set(int(v) % 2 ** 16 for v in refs[0].tolist())), dtype='u2')
 	if case.get('qdtype'):
 		# queries stored WIDER than the references and holding indices the reference dtype cannot represent (they alias modulo 2^16 / 2^32)
 		bits = 8 * np.dtype(dt).itemsize
@@ -188,6 +193,9 @@ def cases(tier, seed):
 		yield {'kind': 'matrix', 'nq': nq, 'nr': nr, 'refs': rnd.choice(conts), 'queries': rnd.choice(['plain', 'list', 'array']),
 		       'ref_indices': idx, 'chunksize': rnd.choice([None, 1, 2, 3, max(ncols, 1), ncols + 1, 1000]), 'out': rnd.choice([None, 'given']),
 		       'threads': rnd.choice([None, 1, 3, 16]), 'seed': rnd.randrange(10 ** 6)}
+		if i % 3 == 0 and nr > 1:
+			yield {'kind': rnd.choice(['array', 'matrix']), 'nq': 1, 'nr': nr, 'refs': rnd.choice(['plain', 'list']), 'queries': 'plain', 'out': None, 'ref_indices': None,
+			       'chunksize': rnd.choice([None, 1, 2, 3]), 'threads': None, 'seed': rnd.randrange(10 ** 6), 'dtype': 'u4', 'mixed_ref_dtypes': True}
 		if i % 5 == 0:
 			yield {'kind': 'mutating', 'nq': 1, 'nr': rnd.choice([1, 3, 6]), 'steps': 5, 'seed': rnd.randrange(10 ** 6), 'dtype': rnd.choice(['u2', 'i4'])}
 		pidx = None
